@@ -259,7 +259,8 @@ Composite == {"top", "core", "inner", "pinner", "outer", "outer2", "tags", "arr"
 Hostile == << "imap[root.Tags]",            \* unhashable map key
               "root.Tags[root.Age / gzero]", \* integer division by zero inside the index
               "pnil.BoomM().Name",           \* a method that dereferences its nil receiver
-              "root.Tags[imap[root.Tags]]" >>
+              "root.Tags[imap[root.Tags]]",
+              "exec(\"/failrange.jet\").x" >>  \* the exec'd template fails inside a range (which rebinds '.')
 EmitCatalogue == (Emit /\ phase = "grow" /\ path = <<>> /\ root = "outer") =>
   PrintT(<<"VEC", ToJson([catalogue |-> [id \in Composite |-> Obj(id)], hostile |-> Hostile])>>)
 
